@@ -20,6 +20,7 @@ import (
 	"math/rand"
 	"os"
 	"path/filepath"
+	"strings"
 	"sync"
 	"time"
 
@@ -42,6 +43,7 @@ type scenario struct {
 	Copies  bool
 	Merges  bool
 	Perturb float64
+	Restart bool // the index is closed and opened again half way (ScorchDisk!Restart)
 }
 
 func scenarios(c *core.Ctx) []scenario {
@@ -64,6 +66,12 @@ func scenarios(c *core.Ctx) []scenario {
 	registerVeto()
 	for i := 0; i < n; i++ {
 		add(fmt.Sprintf("unsafe-2w-veto-%d", i), c.Pick(14, 40), 2, false, map[string]interface{}{"eventCallbackName": "verif-c12-veto"}, true, false, true)
+	}
+	// ScorchDisk!Restart (ScorchDisk_mc_restart.cfg, RetentionWhenQuiescent): the snapshots a new
+	// process life inherits are eligible for removal like the ones it makes itself
+	for i := 0; i < n; i++ {
+		add(fmt.Sprintf("safe-1w-keep3-restart-%d", i), c.Pick(12, 24), 1, true, map[string]interface{}{"numSnapshotsToKeep": 3}, true, false, false)
+		out[len(out)-1].Restart = true
 	}
 	if c.Thorough() {
 		add("long-unsafe", 300, 2, false, nil, true, true, true)
@@ -185,7 +193,25 @@ func runScenario(c *core.Ctx, sc scenario, seed int64) ([]any, error) {
 			}
 		}()
 	}
-	werr := r.RunWriters()
+	var werr error
+	if sc.Restart {
+		all := r.WL.Batches
+		r.WL.Batches = all[:len(all)/2]
+		werr = r.RunWriters()
+		if werr == nil {
+			r.Quiesce(20 * time.Second)
+			r.StopSampler()
+			if err := r.Reopen(); err != nil {
+				return nil, fmt.Errorf("%s: reopen: %v", sc.Name, err)
+			}
+			r.StartSampler(300 * time.Microsecond)
+			r.WL.Batches = all[len(all)/2:]
+			werr = r.RunWriters()
+		}
+		r.WL.Batches = all
+	} else {
+		werr = r.RunWriters()
+	}
 	close(stop)
 	wg.Wait()
 	if werr != nil {
@@ -400,17 +426,30 @@ func run(c *core.Ctx) error {
 	// Close arrives while the persister stands between "segment files written and opened" and
 	// "handed to the introducer" (ScorchDisk: Close enabled in every persister state): nothing
 	// of the index may stay open afterwards
-	for k := 0; k < c.Pick(3, 8); k++ {
+	// ... and the same for the file merger standing between "merged file written and opened"
+	// and "handed to the introducer" (ScorchDisk: MPlanWrite done, MIntro not yet)
+	for k := 0; k < c.Pick(9, 20); k++ {
 		base := c.TempDir("c12c")
-		wl := sx.Workload{Name: "close-mid-persist", Writers: 1, Safe: false, KVConfig: map[string]interface{}{"unsafe_batch": true}}
+		wl := sx.Workload{Name: "close-mid-persist", Writers: 1, Safe: false, KVConfig: map[string]interface{}{"unsafe_batch": true,
+			"scorchMergePlanOptions": map[string]interface{}{"FloorSegmentSize": 1}}}
 		r, err := sx.Start(filepath.Join(base, "idx"), wl, c.Seed+int64(k), 0)
 		if err != nil {
 			return err
 		}
 		r.Quiesce(20 * time.Second)
-		point := []string{"persist.beforeIntro", "persist.filesWritten", "persist.beforeCommit"}[k%3]
+		point := []string{"persist.beforeIntro", "persist.filesWritten", "persist.beforeCommit", "merge.beforeIntro", "merge.beforeIntro", "merge.written"}[k%6]
+		if strings.HasPrefix(point, "merge.") {
+			for _, id := range []string{"a", "b", "c"} {
+				if _, err := r.Submit(sx.BatchSpec{W: 1, Puts: []string{id}, Dels: []string{}}); err != nil {
+					return err
+				}
+				r.Quiesce(20 * time.Second)
+			}
+		}
 		r.SetHolds([]sx.HoldRule{{Point: point, Until: "CloseBegin", Count: 1, Timeout: 10 * time.Second, Prob: 1, Once: true}})
-		if _, err := r.Submit(sx.BatchSpec{W: 1, Puts: []string{"a", "b"}, Dels: []string{}}); err != nil {
+		if strings.HasPrefix(point, "merge.") {
+			go func() { _ = r.ForceMerge() }()
+		} else if _, err := r.Submit(sx.BatchSpec{W: 1, Puts: []string{"a", "b"}, Dels: []string{}}); err != nil {
 			return err
 		}
 		parked := r.WaitParked(point, 1, 10*time.Second)
@@ -429,7 +468,7 @@ func run(c *core.Ctx) error {
 			}
 		}
 		if parked {
-			c.AddExtra("closes_while_the_persister_was_parked_mid_round", 1)
+			c.AddExtra("closes_while_the_persister_or_merger_was_parked_mid_round", 1)
 		}
 		c.Eval(1)
 	}
